@@ -1,6 +1,8 @@
 (* C05 — property theorems only (model: Server/Data.v) *)
 From Coq Require Import List String NArith ZArith Bool.
 From Verif Require Import Base.Util Server.Data Server.DataProofs Server.DataInv C05.Check.
+(* the store-level harness of this check (h_c12) evaluates its cases with the C12 model and checker *)
+From Verif Require C12.Model C12.Check.
 Import ListNotations.
 
 (* a batch in which a downstream write or the checkpoint write fails advances no checkpoint: for every state,
